@@ -1,6 +1,7 @@
 """C05 — runs are isolated: inputs, variables, code constants and emitted values are never modified;
 re-running yields identical output; nothing depends on Go map iteration order (docs/C05.md)."""
 import concurrent.futures
+import threading
 import json
 import os
 import re
@@ -11,16 +12,16 @@ import c56util as U
 
 PROP = "C05"
 PROPS = "props/C05.v"
-NSHARD = 8
+NSHARD = 12
 
 
-def hist_stream(c, tier, seed, extra_args=None, n=None):
+def hist_stream(c, tier, seed, extra_args=None, n=None, corpus=True):
     """history observer on the implementation (oracle evaluated in the harness, no model involved)"""
     exe = os.path.join(V.BUILD, "harness-c05")
     if n is None:
         n = 1500 if tier == "quick" else 60000
-    jobs = U.corpus_jobs()
-    jp = U.write_jobs("c05_corpus.json", jobs)
+    jobs = U.corpus_jobs() if corpus else []
+    jp = U.write_jobs("c05_corpus.json" if corpus else "c05_nocorpus.json", jobs)
     args = ["-seed", str(seed), "-n", str(n), "-tier", tier, "jobs=" + jp] + (extra_args or [])
 
     def one(i):
@@ -46,6 +47,15 @@ def hist_stream(c, tier, seed, extra_args=None, n=None):
                 timed_out=any(r["timed_out"] for r in rs))
 
 
+def nprobes():
+    try:
+        txt = open(os.path.join(V.ROOT, "harness", "c56", "gen.go")).read()
+        body = txt[txt.index("var Probes = []string{"):txt.index("var genPaths")]
+        return body.count("`") // 2
+    except Exception:
+        return 0
+
+
 def run(tier, seed):
     c = V.Check(PROP, tier, seed)
     c.assumptions += [
@@ -58,12 +68,22 @@ def run(tier, seed):
     ok, log = V.regen(["mapsites"])
     if not ok:
         c.notes.append("translator failed: " + V.tail(log, 10))
-    proved = c.prove(PROPS)
     exe_h, hlog = V.build_harness("c05")
     st = {}
     if exe_h is None:
+        c.prove(PROPS)
         c.broken_correspondence("harness-build", None, V.tail(hlog, 40))
         return c.finish("none")
+    # the history observer needs no Coq: it runs in the background while the proofs are checked
+    cbg = V.Check(PROP, tier, seed)
+    bg = {}
+
+    def background():
+        bg["h"] = hist_stream(cbg, tier, seed)
+        bg["h2"] = hist_stream(cbg, tier, seed, n=0 if tier == "quick" else 5000, corpus=False)
+    th = threading.Thread(target=background)
+    th.start()
+    proved = c.prove(PROPS)
     # 1. native sharing signatures judged by the extracted heap model
     exe_m, mlog = V.build_model("c05", "extract/ExtractC05.v", "c05model", deps=["c05/Run.v"])
     if exe_m is None:
@@ -76,14 +96,17 @@ def run(tier, seed):
         else:
             mism = V.compare_model(c, exe_m, cases, "c05nat")
             for line, verdict in mism[:10]:
-                # the model predicts "no write into, no change of, any argument": a changed argument is a
+                # the model predicts "no change of any argument": a changed argument or a wrong value is a
                 # violation of the property itself; a different sharing signature is a stale model
-                if "(bad post" in verdict or "(bad value" in verdict:
+                if "(bad post" in verdict or "(bad value" in verdict or "(bad err" in verdict:
                     c.failing_input("a native changed one of its arguments or returned a wrong value", line, verdict)
                 else:
                     c.broken_correspondence("c05nat", line, "model verdict: " + verdict)
     # 2. histories
-    h = hist_stream(c, tier, seed)
+    th.join()
+    c.evaluations += cbg.evaluations
+    c.distinct |= cbg.distinct
+    h, h2 = bg["h"], bg["h2"]
     for case, what in h["viols"][:10]:
         c.failing_input(what.split(":")[0], case, what)
     if h["timed_out"]:
@@ -91,8 +114,7 @@ def run(tier, seed):
     for k, rc, tail in h["crashes"][:3]:
         c.notes.append("harness process ended abnormally at job %d rc=%s (crashes are C08's subject): %s" % (k, rc, tail[-400:]))
     # 3. determinism across processes: the same jobs in a second set of processes give the same digests
-    if tier != "quick" or True:
-        h2 = hist_stream(c, tier, seed, n=400 if tier == "quick" else 5000)
+    if True:
         common = set(h["digests"]) & set(h2["digests"])
         # the second stream generates fewer random programs, so only probes (same indices) are comparable
         ndiff = 0
@@ -102,14 +124,30 @@ def run(tier, seed):
                 c.failing_input("outputs differ between two processes", "c05 probe-index=%d alias=%d" % k,
                                 "%s vs %s" % (h["digests"][k], h2["digests"][k]))
         c.notes.append("cross-process digest comparison over %d probe histories: %d differ" % (len(common), ndiff))
-    # 4. if a proof obligation about map sites broke, hammer the functions of the new sites (search)
+    # 4. a broken obligation (e.g. a new map-iteration or container-write site): name the sites and search
+    #    with a larger random history pass
+    if not proved and exe_m:
+        sp = os.path.join(V.BUILD, "cases", "c05_sites.cases")
+        open(sp, "w").write("(sites)\n")
+        try:
+            _, outs = V.run_model(exe_m, sp)
+            c.notes.append("site list vs reviewed list (hex): " + (outs[0] if outs else "")[:1500])
+            for kind, hexes in re.findall(r"\((unreviewed|vanished)((?: \([0-9a-f\- ]+\))*)\)", outs[0] if outs else ""):
+                for grp in re.findall(r"\(([0-9a-f\- ]+)\)", hexes):
+                    c.notes.append(kind + " site: " + " | ".join(
+                        bytes.fromhex(x).decode("utf-8", "replace") if x != "-" else "" for x in grp.split()))
+        except Exception as e:
+            c.notes.append("site diff failed: %r" % e)
+        h3 = hist_stream(c, tier, seed + 1000, n=8000)
+        for case, what in h3["viols"][:10]:
+            c.failing_input(what.split(":")[0], case, what)
     rule = ("histories (run on aliased input; same object again; equal fresh copy; two live iterators interleaved "
             "with another input; again) x 3 aliasing modes (plain / hidden capacity / shared sub-containers and "
             "overlapping slices) x programs: %d hand-written sharing probes x inputs, random programs from the "
             "update/delete/add/sort/slice grammar, %d corpus programs of cli/test.yaml; native sharing signatures "
             "(result value, which argument container each result container is, arguments unchanged incl. hidden "
             "capacity) judged by the extracted heap model; distinct = distinct history/native case lines"
-            % (0, h["corpus"]))
+            % (nprobes(), h["corpus"]))
     return c.finish(rule, extra_cov=dict(harness_stats=st, histories=len(h["digests"]), skipped=h["skipped"],
                                          corpus_jobs=h["corpus"], crashes=len(h["crashes"])))
 
@@ -125,7 +163,7 @@ def replay(path):
         print(hlog)
         return 1
     if case.startswith("c05 "):
-        r = U.drive(exe_h, "hist", ["-n", "0", "replay=" + case], env=V.go_env(), timeout=120)
+        r = U.drive(exe_h, "hist", ["-n", "-1", "replay=" + case], env=V.go_env(), timeout=120)
         bad = [l for l in r["records"] if l.startswith("V ")]
         for l in r["records"]:
             print(l)
